@@ -1,10 +1,103 @@
-(* Property C04 — theorems only (placeholder until Proofs/C04_*.v are in; see below). *)
-From Coq Require Import List ZArith Bool.
-From DV Require Import Base.PyTuple Base.PyList Model.C04_NDSort Model.C04_LogSort.
+(* Property C04 — theorems only.
+   Models: Model/C04_NDSort.v (tools.sortNondominated, peeling specification),
+           Model/C04_LogSort.v (tools.sortLogNondominated and helpers).
+   An individual is (uid, wvalues); uid = position in the input list (object identity). *)
+From Coq Require Import List ZArith Bool Permutation.
+From DV Require Import Base.PyTuple Base.PyList Model.C04_NDSort Model.C04_LogSort
+  Proofs.C04_NDSort Proofs.C04_NDLoop Proofs.C04_Spec.
 Import ListNotations.
 Local Open Scope Z_scope.
 
+(* ------------------------------------------------------------------------------------------
+   The specification is what the statement says (dominance depth by peeling). *)
+
+(* spec_fronts: front i = the individuals dominated by nobody once fronts 0..i-1 are removed *)
+Theorem C04_spec_is_peeling : forall pop, NoDup (map uid pop) -> is_peeling pop (spec_fronts pop).
+Proof. exact spec_fronts_is_peeling. Qed.
+Print Assumptions C04_spec_is_peeling.
+
+(* the fronts partition the population *)
+Theorem C04_spec_partition : forall pop,
+  same_len (map iw pop) -> Permutation (concat (spec_fronts pop)) pop.
+Proof. exact spec_fronts_partition. Qed.
+Print Assumptions C04_spec_partition.
+
+(* depth: a member of front i+1 has a dominator in front i; nobody in the same or a later front
+   dominates a member of front i *)
+Theorem C04_spec_depth_dominator : forall pop i F x,
+  nth_error (spec_fronts pop) (S i) = Some F -> In x F ->
+  exists G y, nth_error (spec_fronts pop) i = Some G /\ In y G /\ idom y x = true.
+Proof. intros pop. exact (peel_dominator (length pop) pop). Qed.
+Print Assumptions C04_spec_depth_dominator.
+
+Theorem C04_spec_depth_no_later_dominator : forall pop i j F G x y,
+  nth_error (spec_fronts pop) i = Some F -> nth_error (spec_fronts pop) j = Some G -> (i <= j)%nat ->
+  In x F -> In y G -> idom y x = false.
+Proof. intros pop. exact (peel_no_later_dominator (length pop) pop). Qed.
+Print Assumptions C04_spec_depth_no_later_dominator.
+
+(* ------------------------------------------------------------------------------------------
+   sortNondominated: full statement, every population size, any number of objectives,
+   duplicates, ties, every k (Z), both values of first_front_only. *)
+Theorem C04_sort_nd_correct : forall pop k ffo,
+  NoDup (map uid pop) -> same_len (map iw pop) -> pop <> [] ->
+  exists fs, sort_nd pop k ffo = Some fs /\ Forall2 (@Permutation ind) fs (spec_sort pop k ffo).
+Proof. exact sort_nd_correct. Qed.
+Print Assumptions C04_sort_nd_correct.
+
+(* every returned element is an input individual ... *)
+Theorem C04_sort_nd_elements_are_inputs : forall pop k ffo fs,
+  NoDup (map uid pop) -> same_len (map iw pop) -> pop <> [] -> sort_nd pop k ffo = Some fs ->
+  forall x, In x (concat fs) -> In x pop.
+Proof. exact nd_elements_are_inputs. Qed.
+Print Assumptions C04_sort_nd_elements_are_inputs.
+
+(* ... and appears once *)
+Theorem C04_sort_nd_each_once : forall pop k ffo fs,
+  NoDup (map uid pop) -> same_len (map iw pop) -> pop <> [] -> sort_nd pop k ffo = Some fs ->
+  NoDup (map uid (concat fs)).
+Proof. exact nd_each_once. Qed.
+Print Assumptions C04_sort_nd_each_once.
+
+(* equal-fitness individuals are always in the same front *)
+Theorem C04_sort_nd_same_fitness_same_front : forall pop k ffo fs,
+  NoDup (map uid pop) -> same_len (map iw pop) -> pop <> [] -> sort_nd pop k ffo = Some fs ->
+  forall F x y, In F fs -> In x F -> In y pop -> iw x = iw y -> In y F.
+Proof. exact nd_same_fitness_same_front. Qed.
+Print Assumptions C04_sort_nd_same_fitness_same_front.
+
+(* k = 0: no front *)
+Theorem C04_sort_nd_k0 : forall pop ffo, sort_nd pop 0 ffo = Some [].
+Proof. exact nd_k0. Qed.
+Print Assumptions C04_sort_nd_k0.
+
+(* asked for the first k: exactly the leading fronts needed to reach min(k, n) *)
+Theorem C04_sort_nd_leading_fronts : forall pop k,
+  NoDup (map uid pop) -> same_len (map iw pop) -> pop <> [] -> k <> 0 ->
+  exists fs j, sort_nd pop k false = Some fs /\
+    (j < length (spec_fronts pop))%nat /\
+    Forall2 (@Permutation ind) fs (firstn (S j) (spec_fronts pop)) /\
+    (forall j', (0 < j' <= j)%nat -> ztotal (firstn j' (spec_fronts pop)) < Z.min (zlen pop) k) /\
+    Z.min (zlen pop) k <= ztotal fs.
+Proof. exact nd_leading_fronts. Qed.
+Print Assumptions C04_sort_nd_leading_fronts.
+
+(* first front only: exactly the non-dominated set *)
+Theorem C04_sort_nd_first_front_only : forall pop k,
+  NoDup (map uid pop) -> same_len (map iw pop) -> pop <> [] -> k <> 0 ->
+  exists F, sort_nd pop k true = Some [F] /\ NoDup (map uid F) /\
+            forall x, In x F <-> In x pop /\ forall y, In y pop -> idom y x = false.
+Proof. exact nd_first_front_only. Qed.
+Print Assumptions C04_sort_nd_first_front_only.
+
+(* non-vacuity: a population meeting the hypotheses, with a duplicate and a tie *)
 Example C04_nonvacuous :
-  sort_nd [(0%nat, [1; 2]); (1%nat, [2; 1]); (2%nat, [0; 0]); (3%nat, [1; 2])] 4 false
-  = Some [[(0%nat, [1; 2]); (3%nat, [1; 2]); (1%nat, [2; 1])]; [(2%nat, [0; 0])]].
-Proof. vm_compute. reflexivity. Qed.
+  let pop := [(0%nat, [1; 2]); (1%nat, [2; 1]); (2%nat, [0; 0]); (3%nat, [1; 2])] in
+  NoDup (map uid pop) /\ same_len (map iw pop) /\ pop <> [] /\
+  sort_nd pop 4 false = Some [[(0%nat, [1; 2]); (3%nat, [1; 2]); (1%nat, [2; 1])]; [(2%nat, [0; 0])]] /\
+  spec_sort pop 4 false = [[(0%nat, [1; 2]); (1%nat, [2; 1]); (3%nat, [1; 2])]; [(2%nat, [0; 0])]].
+Proof.
+  cbn zeta. split; [|split; [|split; [discriminate|split; vm_compute; reflexivity]]].
+  - cbn. repeat constructor; cbn; intuition discriminate.
+  - intros a b Ha Hb. cbn in Ha, Hb. intuition (subst; reflexivity).
+Qed.
